@@ -28,8 +28,17 @@ TRUSTED = [
     'a call to a stopped server fails with a deadline status at once; arguments/results pass through the repo\'s own pickler',
     'the 60 s heartbeat time-out of run_until_shutdown is never taken (it only re-runs the statistics logging)',
 ]
-ASSUMPTIONS = ['C15_faithful / C15_failure: one client whose requests are sequential (it awaits every reply), nobody else talks to the server',
+ASSUMPTIONS = ['C15_faithful / C15_failure / C15_no_deadlock / C15_variant / C15_terminates: one client whose requests are sequential '
+               '(it awaits every reply), nobody else talks to the server (no shutdown request: the server thread legitimately stays parked in run_until_shutdown)',
                'IteratorQueue of the server: no time-out configured, ignore_error=False (the constructor defaults)']
+PROVED_LIVENESS = (
+    'liveness of the one-client system is a Lean theorem (not only scheduler + exploration): C15_no_deadlock (a reachable configuration '
+    'without enabled step has the client loop and the prefetch thread at their final pc and the server thread parked in run_until_shutdown), '
+    'C15_progress, C15_no_lost_wakeup (J1 J2 K1 K2 of C04 on the generator queue, transferred through the embedding: Lemmas/QueueLiveView.lean, '
+    'Lemmas/PrefetchLive.lean), C15_variant (a lexicographic measure, 3*Queue.Phi of the queue view + protocol ranks, decreases on every step of '
+    'every thread), C15_terminates (no infinite execution), C15_run_ends / C15_faithful_run / C15_failure_run (every scheduler: the execution is '
+    'finite and ends with the client loop ended on exactly the generator / its exception); for configurations with several concurrent requests '
+    '(re-init / stop / shutdown) "no request stays blocked" is still decided by the scheduler on the real code and by exhaustive exploration')
 RULE = ('one-client cases: generator length 0..6 x failure position (none or any) x prefetch in {1,2,3} x batch in {1,2,3,5} (all combinations, '
         'thorough: x3 schedules); re-init / shutdown cases: a client plus 1-3 of {init_generator (0-2 elements), next_batch (1-3), '
         'stop_prefetch, shutdown} as concurrent request threads, so the re-initialisation / shutdown point is a scheduler choice; '
@@ -406,6 +415,7 @@ def _explore_stage(ctx):
         ctx.extra_oracle_failures.append((dict(c, sched=dict(kind='replay', choices=q['schedule'])), 'model: ' + w))
   ctx.extra_evals += len(cases)
   ctx.notes.append(f'exhaustive model exploration: {len(cases)} configurations, {states} states')
+  ctx.notes.append(PROVED_LIVENESS)
 
 
 def extra(ctx):
